@@ -369,6 +369,13 @@ func (v *VServer) FireOnly(id string) {
 	}
 }
 
+// FireOnlyRx is FireOnly for a receive transaction's retention timer.
+func (v *VServer) FireOnlyRx(id string) {
+	if r, ok := v.S.rxTrans[id]; ok && r.timer != nil {
+		r.timer.Stop()
+	}
+}
+
 func (v *VServer) RxIDs() []string {
 	var out []string
 	for k := range v.S.rxTrans {
